@@ -4,10 +4,10 @@ import os
 import vlib
 
 ADV = ["Adv_DropRrsig", "Adv_DropRrset", "Adv_ReplaceRdata", "Adv_WrongSigner", "Adv_Expire",
-       "Adv_NotYetValid", "Adv_ReplayAncestor", "Adv_ForgeSigned", "Adv_AddBadSig", "Adv_CorruptKey", "Adv_CorruptDs", "Adv_StripProof",
+       "Adv_NotYetValid", "Adv_AddCollidingKey", "Adv_AddExtraDs", "Adv_CorruptSigOctets", "Adv_HideCe", "Adv_ReplayAncestor", "Adv_ForgeSigned", "Adv_AddBadSig", "Adv_CorruptKey", "Adv_CorruptDs", "Adv_StripProof",
        "Adv_ForgeNsecRange", "Adv_SwapProof", "Adv_BadNsec3Label", "Adv_BadNsec3LabelSigned",
        "Adv_ZeroCounts", "Adv_ZeroTtl", "Adv_Inject", "Adv_CnameLoop"]
-VAL = ["Deliver", "StartGroup", "EntProbe", "FetchNext", "VerifyKey", "VerifyDs", "Probe", "CheckGroup", "Judge"]
+VAL = ["NextQuery", "Deliver", "StartGroup", "EntProbe", "FetchNext", "VerifyKey", "VerifyDs", "Probe", "CheckGroup", "Judge"]
 ACTIONS = ["Init"] + ADV + VAL
 
 DEV_INVARIANT = {"D_nsec3_label_expect": "NoPanic", "D_ttl0_node_panic": "NoPanic",
@@ -15,8 +15,8 @@ DEV_INVARIANT = {"D_nsec3_label_expect": "NoPanic", "D_ttl0_node_panic": "NoPani
 
 META = {
     "category": "model_checking",
-    "text": "SCENARIO-LEVEL check. Validator.tla models the validator's walk (per RRset group: fetch DNSKEY/DS, verify, descend, cache; then classify positive / wildcard / NODATA / NXDOMAIN / CNAME and DNAME chains / DS) with one adversary action per rewrite kind (20, incl. ReplayAncestor: genuine signed NSEC/NSEC3 of a DNAME owner / zone cut replayed as NXDOMAIN or NODATA proof for a name below it, and AddBadSig(n, position): extra non-verifying RRSIGs within / beyond the max_bad_signatures tolerance on answer, DS and DNSKEY RRsets) applied to any message on the wire, next to a declarative RFC 4035 s.5 oracle (ChainO/AnswerO over the messages as served, symbolic signatures). TLC checks Soundness, HonestSecure, InsecureNotBogus, WithinAllowed, NoPanic, Terminates exhaustively over 8 hierarchy shapes (incl. the leaf zone delegated below an empty non-terminal that sorts directly after the parent apex / after an ordinary name, secure and insecure) x 3 denial flavours x 9 query kinds (incl. DNAME in the zone and DNAME in an insecure sibling zone pointing into the secure zone) x every single rewrite (quick, 16k scenarios + 6k forged-key pairs) / every pair of rewrites on different messages (thorough). Every scenario is then performed against the real validator: hierarchy signed with the library's signer and real ECDSA P-256 keys around the current time, NSEC/NSEC3/opt-out chains from the library's generators, mock upstream applying the rewrites; ValidationContext::validate_msg's state and net::client::validator::Connection's AD bit / SERVFAIL are compared with the specification. The real validator's upstream fetch sequences are recorded and validated by TLC against the machine (Trace_Validator.tla).",
-    "note": "Shallowest of the twenty checks: a scenario grid, not a proof over all zones/messages. Not covered: more than two composed rewrites; RSA/other algorithms; wildcard or multi-hop DNAME; NSEC bitmaps {NS,DNAME} / DNAME at an apex; the denial helpers that take ValidatedGroup (nsec_for_not_exists etc.) are reached only through validate_msg - driving them directly needs a wider hook (ValidatedGroup constructor); NSEC3 iteration limits and max_bad_signatures beyond defaults; key-tag collisions; multiple keys/DS per zone, key rollovers; cache expiry over time; concurrent validations; message-level malformations other than zeroed counts (C01). Verdicts are compared against the set the property admits (adversary harmless => Secure or Bogus); the machine's exact verdict match is reported as a statistic. Trusted: TLC, ring, the harness's authoritative responder (the honest grid must come out Secure/Insecure for the check to pass). Two of three named deviations found are repaired (panic on non-Base32hex NSEC3 label, panic on TTL-0 nodes); D_extra_rrset_ignored is open. Signature times are compared in plain u32 order by the code (RFC 4034 3.1.5 demands serial arithmetic): witnessed with inception 0xFFFF0000, judged outside the property text, described in the report only. Needs hook validator_nsec_reexport.diff (H3) for the denial-helper stage; without it that stage is skipped and recorded as such.",
+    "text": "SCENARIO-LEVEL check. Validator.tla models the validator's walk (per RRset group: fetch DNSKEY/DS, verify, descend, cache; then classify positive / wildcard / NODATA / NXDOMAIN / CNAME and DNAME chains / DS) with one adversary action per rewrite kind (24, incl. AddCollidingKey / AddExtraDs: an honest zone with two keys of equal tag in both orders, two DS records one matching; CorruptSigOctets; HideCe: NSEC3 closest-encloser record withheld below an existing name; ReplayAncestor: genuine signed NSEC/NSEC3 of a DNAME owner / zone cut replayed as NXDOMAIN or NODATA proof for a name below it, and AddBadSig(n, position): extra non-verifying RRSIGs within / beyond the max_bad_signatures tolerance on answer, DS and DNSKEY RRsets) applied to any message on the wire, next to a declarative RFC 4035 s.5 oracle (ChainO/AnswerO over the messages as served, symbolic signatures). TLC checks Soundness, HonestSecure, InsecureNotBogus, WithinAllowed, CacheTransparent, NoPanic, Terminates; sequences of 2 (thorough: 3) validations of one question on ONE context with rewrites in every run (node cache in the model; signature / NSEC3-hash caches must be invisible) are explored and replayed on one real ValidationContext; exhaustively over 8 hierarchy shapes (incl. the leaf zone delegated below an empty non-terminal that sorts directly after the parent apex / after an ordinary name, secure and insecure) x 3 denial flavours x 10 query kinds (incl. NXDOMAIN two labels below the apex under an existing name, DNAME in the zone and DNAME in an insecure sibling zone pointing into the secure zone) x every single rewrite (quick, 16k scenarios + 6k forged-key pairs) / every pair of rewrites on different messages (thorough). Every scenario is then performed against the real validator: hierarchy signed with the library's signer and real ECDSA P-256 keys around the current time, NSEC/NSEC3/opt-out chains from the library's generators, mock upstream applying the rewrites; ValidationContext::validate_msg's state and net::client::validator::Connection's AD bit / SERVFAIL are compared with the specification. The real validator's upstream fetch sequences are recorded and validated by TLC against the machine (Trace_Validator.tla).",
+    "note": "Shallowest of the twenty checks: a scenario grid, not a proof over all zones/messages. Not covered: more than two composed rewrites; sequences of different questions on one context (the ENT-node observation in the report); the ENT shapes run with 3-4 query kinds only; RSA/other algorithms; wildcard or multi-hop DNAME; NSEC bitmaps {NS,DNAME} / DNAME at an apex; the denial helpers that take ValidatedGroup (nsec_for_not_exists etc.) are reached only through validate_msg - driving them directly needs a wider hook (ValidatedGroup constructor); NSEC3 iteration limits and max_bad_signatures beyond defaults; key-tag collisions; multiple keys/DS per zone, key rollovers; cache expiry over time; concurrent validations; message-level malformations other than zeroed counts (C01). Verdicts are compared against the set the property admits (adversary harmless => Secure or Bogus); the machine's exact verdict match is reported as a statistic. Trusted: TLC, ring, the harness's authoritative responder (the honest grid must come out Secure/Insecure for the check to pass). Two of three named deviations found are repaired (panic on non-Base32hex NSEC3 label, panic on TTL-0 nodes); D_extra_rrset_ignored is open. Signature times are compared in plain u32 order by the code (RFC 4034 3.1.5 demands serial arithmetic): witnessed with inception 0xFFFF0000, judged outside the property text, described in the report only. Needs hook validator_nsec_reexport.diff (H3) for the denial-helper stage; without it that stage is skipped and recorded as such.",
     "technique": "TLA+ spec (Validator.tla: validator walk + adversary actions + declarative oracle) + TLC exhaustive over the scenario grid; spec->impl scenario replay on a really signed hierarchy; impl->spec validation of recorded fetch sequences",
     "design_ref": "DESIGN.md §4 C14",
 }
@@ -35,12 +35,20 @@ def run(ctx):
     ctx.build("replay_validator")
     # 1. TLC: the machine satisfies the properties w.r.t. the declarative oracle
     # (the same exploration also emits one S->I case per finished behaviour)
+    # quick: every single rewrite, all 24 actions.  thorough: that, plus every
+    # pair of rewrites of 20 actions (NotYetValid, ForgeNsecRange, SwapProof and
+    # AddExtraDs only singly) on different messages.
     cases = os.path.join(ctx.work, "cases.ndjson")
-    mc = ctx.tlc("MC_Validator", "MC_Validator_thorough" if thorough else "MC_Validator",
-                 workers=8, label="mc", cases_to=cases)
+    mc = ctx.tlc("MC_Validator", "MC_Validator", workers=8, label="mc", cases_to=cases)
     ctx.require_ok(mc, "MC_Validator")
-    ctx.require_actions(mc, ACTIONS)
+    ctx.require_actions(mc, [a for a in ACTIONS if a != "NextQuery"])
     ctx.exhaustive_flags.append(True)
+    cases2 = None
+    if thorough:
+        cases2 = os.path.join(ctx.work, "cases2.ndjson")
+        mc2 = ctx.tlc("MC_Validator", "MC_Validator_thorough", workers=8, label="mc-pairs",
+                      cases_to=cases2, coverage=False)
+        ctx.require_ok(mc2, "MC_Validator_thorough")
     # each deviation, enabled in the model, breaks the invariant it is about
     for dev, inv in sorted(DEV_INVARIANT.items()):
         if dev not in ctx.open_devs:
@@ -69,6 +77,27 @@ def run(ctx):
     rep = os.path.join(ctx.work, "replay.out")
     open(rep, "w").write(out)
     summary = _absorb(ctx, out, err, wall)
+    if cases2:
+        trace2 = os.path.join(ctx.work, "trace2.ndjson")
+        rc, outp, errp, wallp = ctx.run_bin("replay_validator",
+                                            ["--trace", trace2, "--open-devs", devs],
+                                            stdin_path=cases2, timeout=3000)
+        _absorb(ctx, outp, errp, wallp, label="pairs")
+    # sequences: the same question validated 2 (thorough also: 3) times on ONE
+    # ValidationContext, every run with its own rewrites - node, signature and
+    # NSEC3-hash caches persist; invariant CacheTransparent; each behaviour is
+    # replayed on one real context and the last verdict compared
+    scases = os.path.join(ctx.work, "seq.ndjson")
+    seqs = ["MC_Validator_seq"] + (["MC_Validator_seq_thorough"] if thorough else [])
+    for cfgname in seqs:
+        sq = ctx.tlc("MC_Validator", cfgname, workers=8, label="mc-" + cfgname[13:], cases_to=scases)
+        ctx.require_ok(sq, cfgname)
+        ctx.require_actions(sq, ["NextQuery"])
+        if sq.ncases < 500:
+            raise vlib.ToolError("too few sequence behaviours: %d" % sq.ncases)
+        rc, out3, err3, wall3 = ctx.run_bin("replay_validator", ["--open-devs", devs],
+                                            stdin_path=scases, timeout=3000)
+        _absorb(ctx, out3, err3, wall3, label=cfgname[13:])
     if not thorough:
         # pairs of rewrites that only bite together: forged data signed with
         # the attacker's key + that key substituted into the DNSKEY answer
@@ -84,6 +113,8 @@ def run(ctx):
     # code (this also guards the harness's own authoritative responder)
     # 3. I->S: the recorded fetch sequences are walks of the machine
     _trace_stage(ctx, trace)
+    if cases2:
+        _trace_stage(ctx, trace2, tag="p")
     # 4. denial-proof helpers against the covering predicate (hook H3)
     _helpers_stage(ctx)
     ctx.assume("signatures are symbolic in the model (free constructor, term equality); ring's primitives are trusted")
@@ -128,7 +159,7 @@ def _absorb(ctx, out, err, wall, label="validator"):
     return summary
 
 
-def _trace_stage(ctx, trace):
+def _trace_stage(ctx, trace, tag=""):
     if not os.path.exists(trace):
         raise vlib.ToolError("no fetch trace recorded")
     if not os.path.exists(os.path.join(vlib.SPEC, "Trace_Validator.tla")):
@@ -146,7 +177,7 @@ def _trace_stage(ctx, trace):
     rnd = random.Random(ctx.seed)
     rnd.shuffle(blocks)
     # one TLC run over a seeded sample of 2500 scenarios (thorough: 2 x 20000)
-    blocks = blocks[:2500] if ctx.tier != "thorough" else blocks[:40000]
+    blocks = blocks[:2500] if ctx.tier != "thorough" else blocks[:20000]
     per = 2500 if ctx.tier != "thorough" else 20000
     nfiles = 0
     first = None
@@ -158,7 +189,7 @@ def _trace_stage(ctx, trace):
         if first is None:
             first = (p, chunk)
         ok, res, rej = ctx.validate_trace("Trace_Validator", "Trace_Validator", p,
-                                          label="trace-%d" % nfiles)
+                                          label="trace%s-%d" % (tag, nfiles))
         total += len(chunk)
         nfiles += 1
         if not ok:
@@ -177,7 +208,7 @@ def _trace_stage(ctx, trace):
             flat[j] = json.dumps(o, separators=(",", ":"))
             break
     open(bad, "w").write("\n".join(flat) + "\n")
-    ok2, _, _ = ctx.validate_trace("Trace_Validator", "Trace_Validator", bad, label="trace-selftest")
+    ok2, _, _ = ctx.validate_trace("Trace_Validator", "Trace_Validator", bad, label="trace%s-selftest" % tag)
     ctx.selftest("corrupted fetch trace is rejected by Trace_Validator", not ok2)
 
 
